@@ -217,21 +217,21 @@ func (r *Report) Finish(verifDir, tier string, seed int64, start time.Time, expl
 	}
 	sort.Strings(assumedL)
 	cov := map[string]any{
-		"explanation":         explanation,
-		"obligations":         len(r.Obligations),
-		"discharged":          discharged,
-		"evaluations":         len(r.Obligations),
-		"distinct_nontrivial": len(distinct),
-		"rule":                "one obligation per rule instance, keyed rule|construct (package-qualified function plus a stable descriptor, never a line number); distinct = distinct keys; every obligation is non-trivial in the sense that the recogniser matched a construct in the current source and the rule was evaluated on it",
-		"samples":             samples,
-		"rules":               r.Rules,
-		"rule_instances":      r.Instances,
+		"explanation":          explanation,
+		"obligations":          len(r.Obligations),
+		"discharged":           discharged,
+		"evaluations":          len(r.Obligations),
+		"distinct_nontrivial":  len(distinct),
+		"rule":                 "one obligation per rule instance, keyed rule|construct (package-qualified function plus a stable descriptor, never a line number); distinct = distinct keys; every obligation is non-trivial in the sense that the recogniser matched a construct in the current source and the rule was evaluated on it",
+		"samples":              samples,
+		"rules":                r.Rules,
+		"rule_instances":       r.Instances,
 		"rule_instance_floors": r.Floors,
-		"functions_analysed":  fns,
-		"call_sites":          r.CallSites,
-		"notes":               r.Notes,
-		"known_findings":      knownN,
-		"exhaustive":          false,
+		"functions_analysed":   fns,
+		"call_sites":           r.CallSites,
+		"notes":                r.Notes,
+		"known_findings":       knownN,
+		"exhaustive":           false,
 	}
 	if len(assumedL) > 0 {
 		cov["external_assumed"] = assumedL
